@@ -1,2 +1,186 @@
-use crate::harness::Gen;
-pub fn gens() -> Vec<Gen> { vec![] }
+//! C05: the issued payload hides exactly the claims the strategy designates.
+
+use crate::harness::{fail, Gen, Verdict};
+use crate::keys;
+use crate::oracle::{check_issued, get_path, hidden_paths, view, Seg, Strategy};
+use crate::pipeline::Cfg;
+use crate::rng::Rng;
+use crate::sut::Out;
+use crate::trees::{self, strategies_for};
+use crate::util::{jstr, short, Parts, FAR_EXP, J};
+use serde_json::json;
+
+pub fn gens() -> Vec<Gen> {
+    vec![
+        Gen { name: "c05.special", prop: "C05", tags: &["path", "next_level", "sd_for_key", "prefix", "iss", "exp", "strategy", "src/issuer.rs"], cases: cases_special, check },
+        Gen { name: "c05.catalog", prop: "C05", tags: &["catalog", "provenance", "decoy"], cases: cases_catalog, check },
+        Gen { name: "c05.enum", prop: "C05", tags: &["enum"], cases: cases_enum, check },
+    ]
+}
+
+fn std(tree: J) -> J {
+    trees::with_std(&tree, 1)
+}
+
+fn cases_special(_rng: &mut Rng, sink: &mut dyn FnMut(J) -> bool) {
+    let mut n = 0usize;
+    let mut emit = |claims: &J, s: Strategy, sink: &mut dyn FnMut(J) -> bool| -> bool {
+        n += 1;
+        sink(Cfg::simple(claims.clone(), s).variant(n).to_json())
+    };
+    // nested members NAMED iss / iat / exp are hideable like any other
+    let nested = std(json!({"membership": {"exp": 123, "iss": "inner-iss", "iat": 5, "level": "gold"}, "list": [{"exp": 1, "iat": [2]}], "exp2": 1}));
+    for s in [
+        Strategy::AllLevels,
+        Strategy::TopLevel,
+        Strategy::Custom(vec!["$.membership.exp".into()]),
+        Strategy::Custom(vec!["$.membership.iss".into(), "$.membership.iat".into()]),
+        Strategy::Custom(vec!["$.list[0].exp".into(), "$.list.[0].iat[0]".into()]),
+        Strategy::Custom(vec!["$.iss".into(), "$.exp".into(), "$.iat".into(), "$.membership".into()]),
+    ] {
+        if !emit(&nested, s, sink) {
+            return;
+        }
+    }
+    // sibling names in a prefix relation
+    let prefix_trees = vec![
+        std(json!({"id": {"card": "visible-card", "x": 1}, "idcard": "hidden-idcard"})),
+        std(json!({"user": {"name": "N", "_id": 7, "_ids": [1, 2]}, "user_id": 9, "user_ids": [3, 4]})),
+        std(json!({"tag": {"s": [5, 6]}, "tags": ["t0", "t1"]})),
+        std(json!({"a": {"b": 1, "bc": 2, "c": 3}, "ab": {"c": 3}, "abc": 4})),
+        std(json!({"x": [[1, 2], [3]], "x0": 5, "x1": [7]})),
+    ];
+    let prefix_paths = [
+        vec!["$.idcard"],
+        vec!["$.id.card"],
+        vec!["$.idx"],
+        vec!["$.user_id"],
+        vec!["$.user_ids[1]"],
+        vec!["$.user_ids.[0]"],
+        vec!["$.username"],
+        vec!["$.user._ids[0]", "$.user_id"],
+        vec!["$.tags[1]"],
+        vec!["$.tags"],
+        vec!["$.tag.s[0]"],
+        vec!["$.abc"],
+        vec!["$.ab"],
+        vec!["$.ab.c"],
+        vec!["$.a.bc"],
+        vec!["$.x[0]"],
+        vec!["$.x[0][1]"],
+        vec!["$.x.[1].[0]"],
+        vec!["$.x0"],
+    ];
+    for t in &prefix_trees {
+        for p in &prefix_paths {
+            if !emit(t, Strategy::Custom(p.iter().map(|s| s.to_string()).collect()), sink) {
+                return;
+            }
+        }
+    }
+    // malformed paths are refused, non-existent ones have no effect
+    let base = std(json!({"a": {"b": [1, {"c": 2}]}, "d": "e"}));
+    for p in [
+        vec!["a"], vec!["$a"], vec!["$.a", "d"], vec![""], vec!["$"], vec![".a"], vec!["$$.a"], vec![" $.a"], vec!["a.b"], vec!["$.d", "$"], vec!["$[0]"], vec!["\u{1F600}"],
+        vec!["$.zz"], vec!["$.a.zz"], vec!["$.a.b[9]"], vec!["$.a.b[1].zz"], vec!["$.a["], vec!["$.a.b[x]"], vec!["$.a.b[01]"], vec!["$.a.b[-1]"], vec!["$.a.b[1]c"],
+        vec!["$.d.e"], vec!["$.d[0]"], vec!["$.a.b.c"], vec!["$.a[0]"], vec!["$.A"], vec!["$.a.b[1].c", "$.zz"], vec!["$.a.b[1]", "$.a.b[1].c"], vec!["$.a.b.[1].c"],
+        vec!["$.a.b[1].c", "$.a.b[1].c"],
+    ] {
+        if !emit(&base, Strategy::Custom(p.iter().map(|s| s.to_string()).collect()), sink) {
+            return;
+        }
+    }
+}
+
+fn cases_catalog(rng: &mut Rng, sink: &mut dyn FnMut(J) -> bool) {
+    let mut n = 0usize;
+    for (i, t) in trees::catalog().iter().enumerate() {
+        let claims = trees::with_std(t, i);
+        for s in strategies_for(&claims, rng, 4, 4) {
+            n += 1;
+            if !sink(Cfg::simple(claims.clone(), s).variant(n).to_json()) {
+                return;
+            }
+        }
+    }
+}
+
+fn cases_enum(rng: &mut Rng, sink: &mut dyn FnMut(J) -> bool) {
+    let mut n = 0usize;
+    for nodes in 1..=5 {
+        for (i, t) in trees::trees_with_nodes(nodes).iter().enumerate() {
+            let claims = trees::with_std(t, i);
+            for s in strategies_for(&claims, rng, if nodes <= 4 { 4 } else { 0 }, 2) {
+                n += 1;
+                if !sink(Cfg::simple(claims.clone(), s).variant(n).to_json()) {
+                    return;
+                }
+            }
+        }
+    }
+    loop {
+        let (a, b) = (5 + rng.below(8), 2 + rng.below(5));
+        let claims = trees::with_std(&trees::random_tree(rng, a, b), rng.below(3));
+        for s in strategies_for(&claims, rng, 0, 3) {
+            n += 1;
+            if !sink(Cfg::simple(claims.clone(), s).variant(n).to_json()) {
+                return;
+            }
+        }
+    }
+}
+
+/// Names and string values of hidden claims that occur nowhere in the always-visible part
+/// must not occur in the payload text either.
+fn leak_check(cfg: &Cfg, payload_text: &str) -> Option<String> {
+    let visible = jstr(&view(&cfg.claims, &cfg.strategy, &json!({})));
+    for p in hidden_paths(&cfg.claims, &cfg.strategy) {
+        if let Some(Seg::Key(name)) = p.last() {
+            let q = jstr(&json!(name));
+            if name.len() >= 3 && !visible.contains(&q) && payload_text.contains(&q) {
+                return Some(format!("name of hidden claim {} occurs in the payload", crate::oracle::path_str(&p)));
+            }
+        }
+        if let Some(J::String(s)) = get_path(&cfg.claims, &p) {
+            let q = jstr(&json!(s));
+            if s.len() >= 3 && !visible.contains(&q) && payload_text.contains(&q) {
+                return Some(format!("value of hidden claim {} occurs in the payload", crate::oracle::path_str(&p)));
+            }
+        }
+    }
+    None
+}
+
+pub fn check(case: &J) -> Verdict {
+    let Some(cfg) = Cfg::from_json(case) else { return Verdict::Trivial };
+    let out = cfg.issue();
+    if !cfg.strategy.well_formed() {
+        return match out {
+            Out::Err(_) => Verdict::Pass,
+            o => fail(format!("issue_sd_jwt with a path not starting with `$.` -> {}", o.show()), "refused with an error"),
+        };
+    }
+    let issued = match out {
+        Out::Ok(s) => s,
+        o => return fail(format!("issue_sd_jwt -> {}", o.brief()), "Ok"),
+    };
+    let Some(parts) = Parts::parse(&issued, &cfg.format) else {
+        return fail(format!("issued string is not a {} SD-JWT: {}", cfg.format, short(&issued, 200)), "well-formed SD-JWT");
+    };
+    if parts.kb.is_some() {
+        return fail("issued SD-JWT carries a KB-JWT", "no KB-JWT");
+    }
+    let Some(payload) = parts.payload() else { return fail("payload is not a JSON object", "JSON object") };
+    let cnf = cfg.holder.as_deref().map(keys::holder_jwk_json);
+    if let Err(e) = check_issued(&cfg.claims, &cfg.strategy, &payload, &parts.disclosures, cfg.decoys, cnf.as_ref()) {
+        return fail(
+            format!("{e}; payload = {}; disclosures = {}", short(&jstr(&J::Object(payload.clone())), 500), short(&jstr(&json!(parts.disclosures.iter().map(|d| crate::util::decode_disclosure(d).unwrap_or(J::Null)).collect::<Vec<_>>())), 500)),
+            "hidden exactly the designated claims, each only as one digest at its own position, everything else in clear",
+        );
+    }
+    if let Some(l) = leak_check(&cfg, &jstr(&J::Object(payload))) {
+        return fail(l, "a hidden claim's name and value occur nowhere in the payload");
+    }
+    let _ = FAR_EXP;
+    Verdict::Pass
+}
